@@ -326,7 +326,77 @@ def permuted_continuation(ctx, k):
         shutil.rmtree(d, ignore_errors=True)
 
 
+def recreated_file_history(ctx, k):
+    """history on one path in one process: configuration A creates the table, a second aggregator with A continues it, the
+    file is deleted and created again by configuration B (another metric selection), then an aggregator with A is pointed at
+    it once more — it must refuse the file or keep every value under its own column"""
+    sel_a, sel_b = (["IOU", "DSC"], ["IOU"]) if k % 2 == 0 else (["DSC"], ["IOU", "DSC", "RVD"])
+    d = VERIF / ".work" / f"c18r_{os.getpid()}"
+    shutil.rmtree(d, ignore_errors=True)
+    d.mkdir(parents=True)
+    out = str(d / "r.tsv")
+    inp = {"history": "recreated-file", "metrics_a": sel_a, "metrics_b": sel_b, "src": f"recreated{k}"}
+    ctx.case(inp, True, sample=inp)
+    ctx.count("recreated_file_histories")
+    try:
+        mk = lambda sel: impl.mk_evaluator(E.mk_cfg("MATCHED", sel), global_metrics=[])
+        r = np.zeros((4, 8), np.uint8)
+        r[1, 0:5] = 1
+        r[3, 2:6] = 2
+        arrays = lambda s: (np.roll(r, s, axis=1), r)
+        expected = {}
+        with quiet(), np.errstate(all="ignore"):
+            ev_a = mk(sel_a)
+            a1 = Panoptica_Aggregator(ev_a, out)
+            a1.evaluate(*arrays(0), "s1")
+            a2 = Panoptica_Aggregator(ev_a, out)           # continues: reads the header
+            a2.evaluate(*arrays(1), "s2")
+            os.remove(out)
+            ev_b = mk(sel_b)
+            b1 = Panoptica_Aggregator(ev_b, out)            # a new table under another configuration
+            p, rr = arrays(1)
+            expected["t1"] = {g: v[0].to_dict() for g, v in ev_b.evaluate(p, rr).items()}
+            b1.evaluate(p, rr, "t1")
+            try:
+                a3 = Panoptica_Aggregator(ev_a, out)
+            except AssertionError:
+                ctx.count("recreated_file_refused")
+                return
+            p, rr = arrays(2)
+            expected["s3"] = {g: v[0].to_dict() for g, v in ev_a.evaluate(p, rr).items()}
+            a3.evaluate(p, rr, "s3")
+            try:
+                st = Panoptica_Statistic.from_file(out)
+            except Exception as e:      # noqa
+                ctx.violation(f"C18 violated: after configuration {sel_a} was accepted on a table re-created under {sel_b}, the loader cannot read the file: "
+                              f"{type(e).__name__}: {str(e)[:100]}", inp, key={"kind": "roundtrip"})
+                return
+        for s_, exp in expected.items():
+            try:
+                with quiet():
+                    one = st.get_one_subject(s_)
+            except Exception as e:      # noqa
+                ctx.violation(f"C18 violated: subject {s_!r} cannot be read back ({type(e).__name__}) after configuration {sel_a} was accepted on a table "
+                              f"re-created under {sel_b}", inp, key={"kind": "roundtrip"})
+                return
+            for g in exp:
+                for m, v in exp[g].items():
+                    want = classify(v)
+                    got = one.get(g, {}).get(m, "no such column")
+                    if not ((want is None and got is None) or (want is not None and got not in (None, "no such column") and float(got) == want)):
+                        ctx.violation(f"C18 violated: subject {s_!r} group {g!r} metric {m!r}: result reports {v!r} but the statistics loader reads {got!r} "
+                                      f"(configuration {sel_a} was accepted on a table re-created under {sel_b})", inp, key={"kind": "roundtrip"})
+                        return
+    except Exception as e:      # noqa
+        ctx.violation(f"C18 violated: a legitimate step of the history (create, continue with the same configuration, delete, create under another "
+                      f"configuration) raised {type(e).__name__}: {str(e)[:100]}", inp, key={"kind": "history-raises"})
+    finally:
+        shutil.rmtree(d, ignore_errors=True)
+
+
 def run(ctx):
+    for k in range(2):
+        recreated_file_history(ctx, k)
     locale_loader(ctx, "locale")
     for k in range(ctx.scale(4, 20)):
         statistic_after_other_writer(ctx, k)
@@ -342,6 +412,9 @@ def search(ctx):
 
 
 def replay(ctx, rec):
+    if rec["input"].get("history") == "recreated-file":
+        recreated_file_history(ctx, 0 if rec["input"]["metrics_a"] == ["IOU", "DSC"] else 1)
+        return
     i = rec["input"]
     if str(i.get("mode", "")).startswith("child interpreter with LC_ALL=C"):
         locale_loader(ctx, "replay")
